@@ -118,6 +118,7 @@ def run_case(acc, rnd, tier, case):
         log.append(('C', dt))
     it = Interpreter(sc, initial_context=pr.context(T=Tprobe, CLK=CLK))
     it.attach(pr.listener())
+    it.attach(lambda m: log.append(('IT', m.name, it.time)))       # what Interpreter.time shows while a meta-event is delivered
     r = Runner(it, tmap, log=log)
     t_entry, t_idle = {}, {}
     dg = chart_digest(ch)
@@ -163,6 +164,13 @@ def run_case(acc, rnd, tier, case):
                         acc.violation('C13:step-started-time', "step %d: 'step started' carries time %r, clock was %r"
                                       % (k, e[2].get('time'), t0), dict(wit, step=k))
                         return
+                continue
+            if kind == 'IT':
+                acc.count('time_reads_checked')
+                if e[2] != t0:
+                    acc.violation('C13:interpreter-time-during-step', "step %d started at %r: Interpreter.time showed %r while '%s' "
+                                  'was being delivered' % (k, t0, e[2], e[1]), dict(wit, step=k))
+                    return
                 continue
             if kind in ('U', 'C', 'K'):
                 continue
